@@ -186,6 +186,23 @@ def build(case: dict, d: Path) -> dict:
         if o != "covered_name_not_utf8":
             genv = dict(os.environ, GIT_CONFIG_GLOBAL="/dev/null", GIT_CONFIG_SYSTEM="/dev/null", HOME=str(d))
             subprocess.run(["git", "init", "-q"], cwd=root, env=genv, check=True, capture_output=True)
+    elif o == "dot_license_is_fifo":
+        (root / "src" / "b.py").write_text(GOOD + "b = 2\n")
+        os.mkfifo(root / "src" / "b.py.license")
+        info["target"] = "src/b.py"
+    elif o == "toml_expression_parens":
+        (root / "REUSE.toml").write_text('version = 1\n[[annotations]]\npath = "**"\nSPDX-FileCopyrightText = "J"\nSPDX-License-Identifier = "()"\n')
+    elif o == "covered_expression_parens":
+        (root / "src" / "a.py").write_text("# SPDX-License-Identifier: ()\nx = 1\n")
+    elif o == "toml_glob_run":
+        (root / "REUSE.toml").write_text('version = 1\n[[annotations]]\npath = "' + "**/" * 24 + 'zzz"\nSPDX-FileCopyrightText = "J"\nSPDX-License-Identifier = "MIT"\n')
+        deep = root.joinpath(*(["a"] * 22))
+        deep.mkdir(parents=True)
+        (deep / "y.py").write_text(GOOD + "y = 1\n")
+    elif o == "template_not_utf8":
+        (root / ".reuse" / "templates").mkdir(parents=True)
+        (root / ".reuse" / "templates" / "latin.jinja2").write_bytes(b"\xff\xfe{{ x }}\n{% for x in copyright_lines %}{{ x }}\n{% endfor %}")
+        info["template"] = "latin"
     elif o == "template_bad_syntax":
         (root / ".reuse" / "templates").mkdir(parents=True)
         (root / ".reuse" / "templates" / "broken.jinja2").write_text("{% for x in copyright_lines %}\n{{ x }\n")
@@ -223,7 +240,7 @@ def run_case(case: dict) -> list:
             args = dict(commands(root, info, case["other"]))[name]
             projmodel.set_faults(info["faults"])
             try:
-                if case["other"] == "covered_terminator_run":      # may not terminate: a real process with a time limit
+                if case["other"] in ("covered_terminator_run", "dot_license_is_fifo", "toml_glob_run"):      # may not terminate: a real process with a time limit
                     r = core.run_reuse_subprocess(args, timeout=40)
                 else:
                     r = core.run_reuse(args) if not case.get("subprocess") else core.run_reuse_subprocess(args)
@@ -285,13 +302,15 @@ def run(ctx: core.Ctx) -> int:
               "template_bad_syntax": "grey", "dot_license_not_utf8": "valid", "licenses_same_identifier": "invalid",
               "dep5_and_nested_toml": "invalid", "covered_terminator_run": "valid",
               "two_files_fail_annotate": "valid", "three_files_fail_annotate": "valid",
+              "dot_license_is_fifo": "valid", "toml_expression_parens": "invalid", "covered_expression_parens": "valid", "toml_glob_run": "valid",
+              "template_not_utf8": "grey",
               "gitmodules_empty_path": "valid", "gitmodules_not_utf8": "valid", "ignored_name_not_utf8": "valid", "covered_name_not_utf8": "valid",
               "template_raises": "grey", "template_undefined": "grey", "template_garbles_expression": "grey", "dot_license_is_directory": "grey"}
     for o, cls in others.items():
         cmds = list(all_cmds) + (["convert-dep5"] if o.startswith("dep5") else [])
         if o in ("covered_unreadable", "covered_vanishes"):
             cmds = ["lint", "lint-json", "lint-lines", "spdx", "lint-file"]
-        if o == "covered_terminator_run":
+        if o in ("covered_terminator_run", "dot_license_is_fifo", "toml_glob_run"):
             cmds = ["lint", "spdx", "lint-file"]
         if o.endswith("_files_fail_annotate"):
             cmds = ["lint", "annotate-many", "annotate-recursive"]
